@@ -44,7 +44,7 @@ func init() {
 func (p *c16) ID() string { return "C16" }
 
 func (p *c16) Rule() string {
-	return "enumerated part: every combination of target file (page | explicit layout | default layouts/base.vuego as full document | page plus layout sharing the components | chain of two layouts) x outer wrapper x inner wrapper (none, v-for with 0..3 items, <template v-for>, v-if true/false, v-for + per-item v-if, component included 1..3 times in bare and <template>-wrapped form, include tag carrying v-for, slot content given to a component inside a loop, component rendering its slot twice) x payload (one script/style/div element, two and three sibling elements, nested marked elements, v-once together with v-for on one element for 0/1/3 items, v-once with constant v-if on one element) x a further marked sibling beside the inner wrapper (thorough: with and without; quick uses a subset of the wrapper parameters); random part: seeded random sites with 1..4 marked elements spread over page, second page, up to 3 components (nested includes, slots) and up to 2 layouts plus the default layout, nesting depth <= 3. Every case is rendered through Load().Render, RenderFile, RenderString, RenderByte, RenderReader, Vue.Render and Vue.RenderFragment, each on one engine in the order P, Q, P (thorough: P, Q, P, P; Q = second page sharing the components). Non-trivial = at least one marked element is reached in the reference model; distinct by the generated sources."
+	return "enumerated part: every combination of target file (page | explicit layout | default layouts/base.vuego as full document | page plus layout sharing the components | chain of two layouts) x outer wrapper x inner wrapper (none, v-for with 0..3 items, <template v-for>, v-if true/false, v-for + per-item v-if, component included 1..3 times in bare and <template>-wrapped form, include tag carrying v-for, slot content given to a component inside a loop, component rendering its slot twice) x payload (one script/style/div element, two and three sibling elements, nested marked elements, v-once together with v-for on one element for 0/1/3 items, v-once with constant v-if on one element) x a further marked sibling beside the inner wrapper (thorough: with and without; quick uses a subset of the wrapper parameters); random part: seeded random sites with 1..4 marked elements spread over page, second page, up to 3 components (nested includes, slots) and up to 2 layouts plus the default layout, nesting depth <= 3. Every case is rendered through Load().Render, RenderFile, RenderString, RenderByte, RenderReader, Vue.Render and Vue.RenderFragment, each on one engine in the order P, Q, P (thorough: P, Q, P, P; Q = second page sharing the components), then F, P: F is the page followed by an include of a missing file, so the render fails after it has passed every element; the P after it must emit what the first P emitted. Non-trivial = at least one marked element is reached in the reference model; distinct by the generated sources."
 }
 
 func (p *c16) nRand(ctx core.Ctx) int { return ctx.Pick(3000, 20000) }
@@ -176,7 +176,9 @@ func (p *c16) Exec(ctx core.Ctx, cc any) core.Obs {
 		o.Cell("placement/" + cl + "/reached:" + r)
 	}
 
-	// schedule: P, Q, P, P (or P, P, P)
+	// schedule: P, Q, P, P (or P, P, P), then F (the page followed by a failing
+	// include: the render must fail after it has passed every element of the
+	// page) and P once more - a failed render must not change what the next one emits
 	sched := []*c16File{&c.Page, &c.Page, &c.Page}
 	if c.Alt != nil {
 		sched = []*c16File{&c.Page, c.Alt, &c.Page}
@@ -186,6 +188,11 @@ func (p *c16) Exec(ctx core.Ctx, cc any) core.Obs {
 		o.Cell("renders/interleaved-on-one-engine")
 	}
 	o.Cell("renders/repeated-on-one-engine")
+	const failTail = `<template include="c16-no-such-file.vuego"></template>`
+	failName := "zfail-" + c.Page.Name
+	files[failName] = files[c.Page.Name] + failTail
+	failAt := len(sched)
+	sched = append(sched, &c.Page, &c.Page)
 
 	templateRooted := false
 	for i := range c.Comps {
@@ -214,6 +221,16 @@ func (p *c16) Exec(ctx core.Ctx, cc any) core.Obs {
 		first := map[string]map[string]int{} // page -> counts of its first render on this engine
 		for step, pg := range sched {
 			m := models[pg.Name]
+			if step == failAt {
+				_, ferr := eng.render(failName, bodies[pg.Name]+failTail, c16Data(&c))
+				o.Evals++
+				if ferr != nil {
+					o.Cell("renders/failed-render-before-the-last")
+				} else {
+					o.Cell("anomaly/failing-render-did-not-fail")
+				}
+				continue
+			}
 			out, err := eng.render(pg.Name, bodies[pg.Name], c16Data(&c))
 			o.Evals++
 			o.Cell("entry/" + entry)
